@@ -27,7 +27,7 @@ EXPLANATION = (
     'call; WorkerThread::CommHandler::initSearch clears killers and honours clearHistory; doSearch hands the flag on and resets it.'
     ' The forward of the contempt to the table in Search::setWhiteContempt may depend on the thread number only.'
     ' Added later; (4) clear() zeroes exactly the slots [0, tableSize): clear() itself - branch, chunk loop, worker closure, memset arguments - is interpreted for every table size the Hash option can produce (1..1024 MB quick, ..4096 MB thorough, and the halved fall-back sizes).'
-    ' Added later; History::init zeroes unconditionally.')
+    ' Added later; History::init zeroes unconditionally. (5) the queue of option changes waiting for an idle engine keeps the latest value per option (overwriting store of the value parameter under the name parameter; no emplace / insert on the queue).')
 UNDECIDED = ('equality of node counts as such; influence of state outside these classes (static-storage writers reachable from '
              'the search are listed under coverage.static_storage_writers for review, not judged); hash-key collisions in the '
              'evaluation cache.')
@@ -55,6 +55,7 @@ def run(fb, rep, tier):
     from . import C07
     C07.c3_cache(fb, rep, clause='C14.3')
     c4_clear_covers_table(fb, rep, tier)
+    c5_option_queue_last_wins(fb, rep)
     surv = fb.find1('EngineControl::EngineControl')
     if surv is not None:
         lam_clears = set()
@@ -564,3 +565,64 @@ def c4_clear_covers_table(fb, rep, tier):
     rep.floor(clause, 'of these, sizes cleared in several chunks', n_chunked, 500)
     rep.ob(clause, 'K12 coverage', 'clear() zeroes exactly the slots [0, tableSize) for every table size the Hash option can produce', not bad, f.where,
            '%d sizes evaluated (Hash 1..%d MB and allocation fall-backs), %d of them chunked; first sizes not tiled (entries: intervals): %s' % (n_eval, max_mb, n_chunked, bad), f.sname)
+
+
+# ----------------------------------------------------------------------------- .5
+
+def c5_option_queue_last_wins(fb, rep):
+    """K10 the queue of option changes that waits for the engine thread to become idle holds one value per option, and it must
+    be the *latest* one: a change followed by its revert while both are still queued (sent during a search, or back to
+    back) otherwise leaves the changed value in force, and `Clear Hash` does not reset options.  The queueing function must
+    store the value parameter under the name parameter with overwrite semantics (`queue[name] = value`, insert_or_assign);
+    map operations that keep an existing element (emplace, insert, try_emplace) are not accepted anywhere on the queue."""
+    clause = 'C14.5'
+    f = fb.find1('EngineMainThread::setOptionWhenIdle')
+    if rep.need(clause, f, 'EngineMainThread::setOptionWhenIdle') is None:
+        return
+    params = [p_.get('id') for p_ in f.d.get('params', [])]
+    if len(params) < 2:
+        rep.broken(clause, 'setOptionWhenIdle no longer has (name, value) parameters')
+        return
+    KEEP_OLD = ('emplace', 'insert', 'try_emplace', 'emplace_hint')
+    keep = []
+    n_acc = 0
+    for g in fb.funcs.values():
+        if not g.has_cfg or not R.in_prog(g):
+            continue
+        for b, i, e in g.events():
+            for n in walk(e):
+                if isinstance(n, dict) and n.get('k') == 'call' and n.get('recv') is not None and (ap(n['recv']) or '').endswith('.pendingOptions'):
+                    n_acc += 1
+                    if cname(n).split('::')[-1] in KEEP_OLD:
+                        keep.append((g, e))
+    rep.floor(clause, 'member calls on the pending-option queue', n_acc, 1)
+    rep.ob(clause, 'K10 queue semantics', 'no operation on the pending-option queue keeps an older value for the same option (emplace / insert / try_emplace)', not keep,
+           R.site(keep[0][0], keep[0][1]) if keep else f.where, '' if not keep else '%s in %s' % (show(keep[0][1], 80), keep[0][0].sname), f.sname)
+
+    def is_param(t, pid):
+        t = _s(t)
+        while isinstance(t, dict) and t.get('k') == 'ctor' and len(t.get('args', [])) == 1:
+            t = _s(t['args'][0])
+        return isinstance(t, dict) and t.get('k') == 'var' and t.get('id') == pid
+
+    def _s(t):
+        while isinstance(t, dict) and t.get('k') in ('cast', 'paren'):
+            t = t.get('e')
+        return t
+    stores = []
+    for b, i, e in f.events():
+        tgt = val = None
+        if e.get('k') == 'asg' and e.get('op') == '=':
+            tgt, val = e.get('l'), e.get('r')
+        elif e.get('k') == 'call' and e.get('op') == '=' and e.get('args'):
+            tgt, val = e.get('recv'), e['args'][0]
+        elif e.get('k') == 'call' and cname(e).split('::')[-1] == 'insert_or_assign' and (ap(e.get('recv')) or '').endswith('.pendingOptions') and len(e.get('args', [])) == 2:
+            if is_param(e['args'][0], params[0]) and is_param(e['args'][1], params[1]):
+                stores.append(e)
+            continue
+        t = _s(tgt)
+        if isinstance(t, dict) and t.get('k') == 'call' and t.get('op') == '[]' and (ap(t.get('recv')) or '').endswith('.pendingOptions') and t.get('args') and \
+                is_param(t['args'][0], params[0]) and is_param(val, params[1]):
+            stores.append(e)
+    rep.ob(clause, 'K10 queue semantics', 'setOptionWhenIdle stores its value parameter under its name parameter, replacing an older queued value', len(stores) >= 1,
+           R.site(f, stores[0]) if stores else f.where, '%d overwriting store(s)' % len(stores), f.sname)
